@@ -9,8 +9,10 @@
  *   VERIF_CT_OPEN_FILE   spifconf_open_file
  *   VERIF_CT_PARSE_LINE  spifconf_parse_line (file mode: fp != NULL)
  */
-#ifndef VERIF_CONF_H
-#define VERIF_CONF_H
+#ifndef VERIF_CONF_SPEC_H
+#define VERIF_CONF_SPEC_H
+/* ---- part 1: spec macros only.  A unit whose loop-contract macros (env_conf.h section 5c) use them includes
+ * this header once BEFORE "src/conf.c" with VERIF_CONF_SPEC_ONLY defined, and again after it for part 2. ---- */
 /* ---------------------------------------------------------------------------------------
  * representation invariants of the four tables.  Capacities: 1..512 (an 8-bit index can
  * only force a doubling up to 2*255)
@@ -41,6 +43,19 @@
 
 #define VSPACE(c) ((c) == ' ' || ((c) >= '\t' && (c) <= '\r'))
 
+
+/* ---- loop invariants of spifconf_parse (bounded unit C09.parse: slots 1..VERIF_MAX_NEST of the file stack and
+ *      0..VERIF_MAX_CTX of the context stack are spelled out; see units/C09/parse.c) ---------------------- */
+#define PARSE_FS_ENTRY(J)  ((J) > fstate_idx || (fstate[(J)].fp != NULL && (fstate[(J)].flags & FILE_PREPROC) == 0))
+#define PARSE_INV \
+    (FSTK_POST && CTXSTK_POST && fstate_idx <= VERIF_MAX_NEST && PARSE_FS_ENTRY(1) && PARSE_FS_ENTRY(2) && \
+     ctx_state_idx <= VERIF_MAX_CTX && CTXID_AT(0) && CTXID_AT(1) && CTXID_AT(2) && CTXID_AT(3) && CTXID_AT(vg_k) && \
+     !vg_exc && !vg_fg_hdr && vg_fg_budget <= 0xffffffffUL && vg_open_streams == vg_os0 + fstate_idx)
+#endif /* VERIF_CONF_SPEC_H */
+
+#ifndef VERIF_CONF_SPEC_ONLY
+#ifndef VERIF_CONF_H
+#define VERIF_CONF_H
 /* =======================================================================================
  * VERIF_CT_REGISTER
  * ======================================================================================= */
@@ -249,8 +264,8 @@ static unsigned char v_file_push(FILE *fp, spif_charptr_t path, spif_charptr_t o
     __CPROVER_assert(fstate_idx < 255, "register_fstate contract: fstate_idx < 255");
     __CPROVER_assert(fp != NULL && path != NULL && line <= 0xffffffffUL, "register_fstate contract: fp, path not NULL, line fits");
     unsigned char old_idx = fstate_idx;
-    /* FSTK_KEEP is proved for an arbitrary ghost index: instantiated here at vg_k and at vg_k2 */
-    fstate_t keep_k, keep_k2;
+    /* FSTK_KEEP is proved for an arbitrary ghost index: instantiated here at vg_k, vg_k2 and the old top */
+    fstate_t keep_k, keep_k2, keep_top = fstate[old_idx];
     _Bool has_k = vg_k <= old_idx, has_k2 = vg_k2 <= old_idx;
     if (has_k) keep_k = fstate[vg_k];
     if (has_k2) keep_k2 = fstate[vg_k2];
@@ -273,6 +288,7 @@ static unsigned char v_file_push(FILE *fp, spif_charptr_t path, spif_charptr_t o
     fstate[fstate_idx].flags = flags;
     if (has_k) fstate[vg_k] = keep_k;
     if (has_k2) fstate[vg_k2] = keep_k2;
+    fstate[old_idx] = keep_top;                 /* ... and at the entry below the new top */
     return fstate_idx;
 }
 #endif
@@ -309,8 +325,9 @@ FILE *v_m_open_file(spif_charptr_t name)
     unsigned long b = nondet_ulong();
     __CPROVER_assume(b <= vg_fg_budget);
     vg_fg_budget = b;
-    vg_fg_nl = nondet_bool(); vg_fg_len = nondet_size_t(); vg_fg_buf = nondet_ptr(); vg_fg_ok = nondet_bool(); vg_fg_hdr = nondet_bool();
-    if (name == NULL || fstate_idx >= 255 || nondet_bool()) {
+    __CPROVER_assert(!vg_fg_hdr, "open_file contract: no header read pending");
+    vg_fg_nl = nondet_bool(); vg_fg_len = nondet_size_t(); vg_fg_buf = nondet_ptr(); vg_fg_ok = nondet_bool(); vg_fg_hdr = 0;
+    if (name == NULL || fstate_idx >= VERIF_MAX_NEST || nondet_bool()) {
         return (FILE *) NULL;           /* vg_fg_mid, vg_deliverable, vg_open_streams unchanged */
     }
     vg_fg_mid = 0;
@@ -432,10 +449,12 @@ __CPROVER_ensures(!(vg_k < __CPROVER_return_value) || vg_lk_at_k != 0)
 #ifdef VERIF_CT_OPEN_FILE
 FILE *spifconf_open_file(spif_charptr_t name)
 __CPROVER_requires(name == NULL || __CPROVER_r_ok(name, 1))
+__CPROVER_requires(!vg_fg_hdr)
 __CPROVER_assigns(vg_fg, vg_open_streams)
+__CPROVER_ensures(!vg_fg_hdr)
 __CPROVER_ensures(__CPROVER_return_value == NULL || name != NULL)
 __CPROVER_ensures(__CPROVER_return_value == NULL ? vg_open_streams == __CPROVER_old(vg_open_streams)
-                  : (vg_open_streams == __CPROVER_old(vg_open_streams) + 1 && fstate_idx < 255 &&
+                  : (vg_open_streams == __CPROVER_old(vg_open_streams) + 1 && fstate_idx < VERIF_MAX_NEST &&
                      __CPROVER_is_fresh(__CPROVER_return_value, sizeof(FILE))))
 /* the header line is not a config line; the parse loop starts at a line boundary */
 __CPROVER_ensures(vg_deliverable == __CPROVER_old(vg_deliverable) && vg_fg_budget <= __CPROVER_old(vg_fg_budget))
@@ -511,9 +530,9 @@ __CPROVER_requires(vg_n1 >= CONFIG_BUFF && vg_n1 <= VCAP && __CPROVER_is_fresh(b
 __CPROVER_requires(CTXTAB_INV && CTXSTK_INV && FSTK_INV)
 __CPROVER_requires(CTXNAME_AT(vg_k))
 __CPROVER_requires(CTXID_AT(ctx_state_idx) && CTXID_AT(ctx_state_idx ? ctx_state_idx - 1 : 0) && CTXID_AT(vg_k))
-__CPROVER_requires(FSFP_AT(vg_k2) && fstate_idx >= 1)
+__CPROVER_requires(FSFP_AT(vg_k2) && fstate_idx >= 1 && fstate[fstate_idx].fp != NULL)
 /* sequencing ghosts: this call is for the newest complete line, at a line boundary */
-__CPROVER_requires(vg_deliverable == vg_pl_calls + 1 && !vg_fg_mid && vg_seq <= 0xffffffffUL)
+__CPROVER_requires(vg_deliverable == vg_pl_calls + 1 && !vg_fg_mid && !vg_fg_hdr)
 PL_BEHAVIOUR
 __CPROVER_assigns(__CPROVER_object_whole(buff), spifconf_vars)
 __CPROVER_assigns(ctx_state, ctx_state_idx, ctx_state_cnt, __CPROVER_object_whole(ctx_state))
@@ -529,7 +548,7 @@ __CPROVER_ensures(vg_exc == (__CPROVER_old(vg_exc) || PL_PREPROC_AGAIN))
 PL_ENS(CTXSTK_POST && FSTK_POST && fstate_idx >= 1)
 PL_ENS(CTXID_AT(ctx_state_idx) && CTXID_AT(vg_k))
 PL_ENS(FSFP_AT(vg_k2))
-__CPROVER_ensures(vg_pl_calls == __CPROVER_old(vg_pl_calls) + 1 && vg_deliverable == __CPROVER_old(vg_deliverable) && !vg_fg_mid)
+__CPROVER_ensures(vg_pl_calls == __CPROVER_old(vg_pl_calls) + 1 && vg_deliverable == __CPROVER_old(vg_deliverable) && !vg_fg_mid && !vg_fg_hdr)
 __CPROVER_ensures(vg_fg_budget <= __CPROVER_old(vg_fg_budget))
 /* ---- E1: stack motion is by at most one; everything below the touched entries is kept ----- */
 PL_ENS(fstate_idx == __CPROVER_old(fstate_idx) || fstate_idx == __CPROVER_old(fstate_idx) + 1)
@@ -565,7 +584,7 @@ PL_ENS(!(PL_TEXT && !PL_SKIP) ||
                   (PL_ONECALL && PL_LOG(0).text == buff && PL_LOG(0).id == PL_ID0 && PL_LOG(0).in == PL_STATE0 &&
                    PL_LOG(0).h == context[PL_ID0].handler &&
                    ctx_state_idx == PL_DEPTH0 && ctx_state[ctx_state_idx].state == PL_LOG(0).out && ctx_state[ctx_state_idx].ctx_id == PL_ID0 &&
-                   vg_t_chomp < vg_t_expand && vg_t_expand < PL_LOG(0).seq &&
+                   (vg_t_expand - vg_t_chomp) - 1 < 3 && (PL_LOG(0).seq - vg_t_expand) - 1 < 3 &&   /* chomp, then expand, then delivery */
                    fstate_idx == __CPROVER_old(fstate_idx)))
 /* ---- skipped (a handler asked to skip to the end of its context): no delivery -------------- */
 PL_ENS(!((PL_TEXT || PL_BEGIN) && PL_SKIP) || (PL_NOCALL && PL_CTX_SAME && fstate_idx == __CPROVER_old(fstate_idx)))
@@ -577,6 +596,23 @@ PL_ENS(fstate_idx == __CPROVER_old(fstate_idx) ||
                    __CPROVER_is_fresh(fstate[fstate_idx].fp, sizeof(FILE)) && fstate[fstate_idx].line == 1 &&
                    fstate[fstate_idx].flags == 0 && fstate[fstate_idx].outfile == NULL && fstate[fstate_idx].path != NULL))
 PL_ENS(fstate_idx != __CPROVER_old(fstate_idx) || vg_open_streams == __CPROVER_old(vg_open_streams))
+/* ---- the current file's entry: it keeps a stream, path and line number; a push leaves it untouched below
+ *      the new top; its "preprocessed" flag changes only on a %preproc directive ------------------------ */
+PL_ENS(fstate[fstate_idx].fp != NULL)
+PL_ENS(fstate_idx == __CPROVER_old(fstate_idx) ? (fstate[fstate_idx].path == __CPROVER_old(fstate[fstate_idx].path) &&
+                                                  fstate[fstate_idx].line == __CPROVER_old(fstate[fstate_idx].line))
+                                               : PL_FS_KEEP(__CPROVER_old(fstate_idx)))
+PL_ENS(fstate_idx != __CPROVER_old(fstate_idx) || vg_saw_preproc != __CPROVER_old(vg_saw_preproc) ||
+       ((fstate[fstate_idx].flags ^ __CPROVER_old(fstate[fstate_idx].flags)) & FILE_PREPROC) == 0)
+#ifdef VERIF_ROLE_CALLEE_parse_line
+/* ---- callee role (units/C09/parse.c, bounded): the clauses proved above for the ARBITRARY ghost indices,
+ *      instantiated at the constant stack slots the bounded caller reasons about, and the caller's bounds
+ *      on the input (VERIF_MAX_NEST nested files, VERIF_MAX_CTX nested contexts, no %preproc directive) -- */
+__CPROVER_requires(CTXID_AT(0) && CTXID_AT(1) && CTXID_AT(2) && CTXID_AT(3))
+PL_ENS(CTXID_AT(0) && CTXID_AT(1) && CTXID_AT(2) && CTXID_AT(3))
+PL_ENS(!(1 < __CPROVER_old(fstate_idx)) || PL_FS_KEEP(1))
+__CPROVER_ensures(ctx_state_idx <= VERIF_MAX_CTX && vg_saw_preproc == __CPROVER_old(vg_saw_preproc))
+#endif
 /* ---- C11 spawn freedom: a process is spawned only after the directive word "preproc " was
  *      matched, or shell_expand read a backquote / matched %exec( --------------------------- */
 __CPROVER_ensures(vg_spawned == __CPROVER_old(vg_spawned) || vg_saw_preproc != __CPROVER_old(vg_saw_preproc) ||
@@ -584,4 +620,5 @@ __CPROVER_ensures(vg_spawned == __CPROVER_old(vg_spawned) || vg_saw_preproc != _
 ;
 #endif /* VERIF_CT_PARSE_LINE */
 
-#endif
+#endif /* VERIF_CONF_H */
+#endif /* !VERIF_CONF_SPEC_ONLY */
